@@ -133,6 +133,11 @@ func (w *Watcher) getGovernanceEventsByTxId(
 		if event.ContractAddress != address {
 			continue
 		}
+		// After a reorg the same transaction can show up with events from the orphaned block as well. Only the
+		// block the transaction is confirmed in is checked for being on the main chain, so only its events count.
+		if event.BlockHash != blockHash {
+			continue
+		}
 
 		header, err := client.GetBlockHeader(ctx, event.BlockHash)
 		if err != nil {
